@@ -99,7 +99,9 @@ func build(kind int, space, id string, to, from jid.JID, lang string, ti int) st
 	}
 }
 
-var payloads = []string{"", `<x xmlns="urn:p" a="1">a&amp;b<y/>c</x>`, `<iq xmlns="urn:p"><error/></iq>`}
+var payloads = []string{"", `<x xmlns="urn:p" a="1">a&amp;b<y/>c</x>`, `<iq xmlns="urn:p"><error/></iq>`,
+	"\n  <x xmlns=\"urn:p\"><y/></x>\n",              // as read from an indented stream: character data around the element
+	`<a xmlns="urn:p"/><b xmlns="urn:p">t</b>`} // two sibling elements
 
 func payloadReader(i int) xml.TokenReader {
 	return xu.Reader(payloads[i])
@@ -346,7 +348,7 @@ func checkStanzaErr(e stanza.Error, desc string, carrier int) *nd.Violation {
 // ---- stream errors
 
 var streamConds = []string{"bad-format", "host-unknown", "see-other-host", "not-authorized", "undefined-condition"}
-var contents = []string{"", "example.org:5222", `<&>`, "[::1]:5222"}
+var contents = []string{"", "example.org:5222", `<&>`, "[::1]:5222", "::1", "2001:db8::7"} // the last two: bare IPv6 literals given by the application as they are
 
 func normStream(e stream.Error) string {
 	return fmt.Sprintf("err=%q text=%q content=%q", e.Err, fmt.Sprint(e.Text), e.Content)
